@@ -9,18 +9,24 @@ Fixpoint beq_bytes (a b : bytes) : bool :=
   end.
 
 (* id, encoder, payload, following bytes, bytes written by the real write_record,
-   what the real read_record returned from (wire ++ following): id, payload, number of bytes left *)
-Definition case := (bytes * bytes * bytes * bytes * bytes * (bytes * bytes * nat))%type.
+   what the real read_record returned from (wire ++ following): id, payload, number of bytes left;
+   a cut position k < length wire and what the real read_record did with the first k bytes followed by
+   end-of-stream (0 = IncompleteReadError, 1 = it returned a record, 2 = anything else) *)
+Definition case := (bytes * bytes * bytes * bytes * bytes * (bytes * bytes * nat) * (nat * nat))%type.
 
 Definition check_case (c : case) : nat :=
-  let '(id, enc, payload, rest, wire, (oid, opayload, oleft)) := c in
+  let '(id, enc, payload, rest, wire, (oid, opayload, oleft), (cut, cutres)) := c in
   if negb (beq_bytes (encode_record id enc payload) wire) then 1
   else match read_record (wire ++ rest) with
        | None => 2
        | Some (r, rest') =>
            if beq_bytes (r_id r) oid && beq_bytes (r_payload r) opayload && (length rest' =? oleft)
               && beq_bytes (r_enc r) enc && beq_bytes rest' rest
-           then 0 else 3
+           then match read_record (firstn cut wire) with
+                | None => if cutres =? 0 then 0 else 4
+                | Some _ => if cutres =? 1 then 0 else 4
+                end
+           else 3
        end.
 
 Fixpoint bad_from (i : nat) (cs : list case) : list (nat * nat) :=
